@@ -54,6 +54,13 @@ WORKSPACES = {
         "b/y.F90": "module ey\n#include \"eh.h\"\n#ifdef E_FROM_HEADER\n  integer :: e_seen_y\n#endif\nend module ey\n",
         "b/eh.h": "#define E_FROM_HEADER 1\n",
     },
+    # a link of one file (procedure(integrand) :: f) goes through an entity that another file owns only through an
+    # INCLUDE: every include must be spliced in before any link is resolved, whatever the order of the files
+    "WG_include_link": {
+        "a_quad.f90": "module gquad\n  use gcallbacks\n  implicit none\ncontains\n  function gintegrate(f, a) result(r)\n    procedure(gintegrand) :: f\n    real :: a, r\n    r = f(a)\n  end function gintegrate\nend module gquad\n",
+        "m_callbacks.f90": "module gcallbacks\n  implicit none\n  include 'z_callbacks_decl.f90'\nend module gcallbacks\n",
+        "z_callbacks_decl.f90": "  abstract interface\n    function gintegrand(x) result(y)\n      real, intent(in) :: x\n      real :: y\n    end function gintegrand\n  end interface\n  integer :: gcount\n",
+    },
     # the same function-like macro name with a different body in two preprocessed files
     "WF_macros": {
         "fa.F90": "#define FDECL(n) integer :: n\n#define FTWO(a, b) a, b\nmodule fam\n  implicit none\n  FDECL(falpha)\n  integer :: FTWO(fa1, fa2)\nend module fam\n",
